@@ -585,3 +585,101 @@ func (p CPath) structAt(occs []OccPos, at int, root ssa.Value, sel string) (map[
 	}
 	return out, false
 }
+
+// untestedErrors lists, for a path, the calls into the module (static callees in the
+// module, and methods of interfaces the module declares) that returned an error the
+// path never compared with nil and does not return: the error was dropped.
+func (p CPath) untestedErrors(inModule func(*ssa.Function) bool, modPath string) []*ssa.Call {
+	occs := p.OccsPos()
+	rels := p.relationsPos(occs)
+	ret, _ := p.Last().(*ssa.Return)
+	var out []*ssa.Call
+	for i, oc := range occs {
+		call, ok := oc.In.(*ssa.Call)
+		if !ok {
+			continue
+		}
+		// does it return an error?
+		errIdx := -1
+		switch t := call.Type().(type) {
+		case *types.Tuple:
+			for k := 0; k < t.Len(); k++ {
+				if isErrorType(t.At(k).Type()) {
+					errIdx = k
+				}
+			}
+		default:
+			if isErrorType(call.Type()) {
+				errIdx = 0
+			}
+		}
+		if errIdx < 0 {
+			continue
+		}
+		if f := call.Call.StaticCallee(); f != nil {
+			if !inModule(f) {
+				continue
+			}
+		} else if call.Call.IsInvoke() {
+			pk := call.Call.Method.Pkg()
+			if pk == nil || !(pk.Path() == modPath || strings.HasPrefix(pk.Path(), modPath+"/")) {
+				continue
+			}
+		} else {
+			continue
+		}
+		var errv ssa.Value = call
+		if _, isT := call.Type().(*types.Tuple); isT {
+			errv = nil
+			for _, ref := range *call.Referrers() {
+				if ex, ok := ref.(*ssa.Extract); ok && ex.Index == errIdx {
+					errv = ex
+				}
+			}
+			if errv == nil {
+				out = append(out, call) // the error result is not even read
+				continue
+			}
+		}
+		handled := false
+		for _, rel := range rels {
+			if rel.At < i || (rel.Op != token.EQL && rel.Op != token.NEQ) {
+				continue
+			}
+			for _, pr := range [][2]ssa.Value{{rel.X, rel.Y}, {rel.Y, rel.X}} {
+				if isNilConst(pr[1]) && p.Upto(occs[rel.At].Seg).resolvesThrough(rel.Ctx, pr[0], errv) {
+					handled = true
+				}
+			}
+		}
+		if !handled && ret != nil {
+			for _, rv := range ret.Results {
+				if isErrorType(rv.Type()) && p.resolvesThrough(nil, rv, errv) {
+					handled = true
+				}
+			}
+		}
+		// handed on to something else (stored, passed): not dropped here
+		if !handled {
+			for _, ref := range *errv.Referrers() {
+				switch x := ref.(type) {
+				case *ssa.Store:
+					if x.Val == errv {
+						// stored into a cell: handled if the cell is what is tested/returned (resolved above); otherwise kept
+						if _, private := x.Addr.(*ssa.Alloc); !private {
+							handled = true
+						}
+					}
+				case *ssa.Call:
+					handled = true
+				case *ssa.MakeInterface, *ssa.Phi:
+					// flows on; phis are resolved per path above
+				}
+			}
+		}
+		if !handled {
+			out = append(out, call)
+		}
+	}
+	return out
+}
